@@ -11,6 +11,7 @@ from experimaestro.scheduler.workspace import RunMode
 from experimaestro import experiment
 
 logging.disable(logging.CRITICAL)
+SEALED_ROOT_INITS = False
 
 
 class Base(Config):
@@ -189,7 +190,9 @@ def run_history(rng, wsdir, uid):
                 i = rng.choice(cands)
                 t = objs[i]
                 inits = []
-                if rng.random() < 0.3:
+                # SEALED_ROOT_INITS: init tasks given to a task that an earlier submission already sealed are sealed (and get their
+                # generated paths) by submit() since fix 1c3ade1; enabled once Model/GenPathHist.lean follows that change
+                if rng.random() < 0.3 and (SEALED_ROOT_INITS or not t.__xpm__._sealed):
                     uid[0] += 1
                     inits = [register(Init(v=uid[0]))]
                 # task outputs: marks existing non-task objects and/or a fresh object
